@@ -509,7 +509,14 @@ CALL_VARIANTS = [
     ('kekule', {}), ('thiele', {}), ('thiele', {'fix_tautomers': False}), ('clean_isotopes', {}),
     ('implicify_hydrogens', {}), ('explicify_hydrogens', {}), ('fix_structure', {}),
     ('explicify_hydrogens', {'start_map': ['max', 1]}), ('explicify_hydrogens', {'start_map': ['max', 4]}),
+    ('remove_acids', {}), ('split_metal_salts', {}), ('split_metal_salts', {'logging': True}), ('remove_metals', {'logging': True}),
 ]
+# public generators of new molecules: every molecule they yield is judged like any other result
+ENUMERATORS = [('enumerate_kekule', {}), ('enumerate_tautomers', {'limit': 6}), ('enumerate_tautomers', {'limit': 6, 'prepare_molecules': False}),
+               ('enumerate_charged_forms', {'limit': 6}), ('enumerate_charged_tautomers', {'limit': 6})]
+SALTS = ['CC(=O)O[Na]', 'CC(=O)[O-].[Na+]', 'CCO[K]', 'CN.Cl', 'CC(=O)O.CN', 'C[NH3+].[Cl-]', 'CCN(CC)CC.OS(O)(=O)=O', 'CC(=O)O[Mg]OC(C)=O',
+         'CC(=O)O[Li]', 'c1ccccc1O[Na]', 'CS[Na]', 'C[N-][K]', 'CCN.OC(=O)C(F)(F)F', '[Na]OS(=O)(=O)c1ccccc1', 'CC(C)C[Li]', 'Cl[Mg]C', 'N.CC(O)=O', '[Na+].[NH3].CC([O-])=O']
+
 # operations that write hydrogen counts or allocate atoms: each is run after a cut and on renumbered molecules
 H_WRITERS = [('explicify_hydrogens', {}), ('implicify_hydrogens', {}), ('explicify_hydrogens', {'start_map': ['max', 2]}),
              ('canonicalize', {}), ('standardize', {}), ('kekule', {}), ('thiele', {}), ('neutralize', {}), ('fix_structure', {}),
@@ -617,6 +624,8 @@ def apply_history(src, ops):
                     kw['start_map'] = max(m._atoms) + kw['start_map'][1]
                 getattr(m, op[1])(**kw)
                 nxt.append(m)
+            elif k == 'enumerate':
+                nxt += list(itertools.islice(getattr(m, op[1])(**op[2]), 6))
             elif k == 'substructure':
                 nxt.append(m.substructure([x for x in op[1] if x in have]))
             elif k == 'and':
@@ -653,7 +662,23 @@ def apply_history(src, ops):
     return cur
 
 
-def judge_history(src, results, calc_of, accepts, ops):
+S_METALS = {3, 11, 19, 37, 55, 87, 4, 12, 20, 38, 56, 88}
+
+
+def split_coordinate_gap(src, res, n, ops):
+    """recorded gap (known finding C04/split_metal_salts/coordinate-bond-split-as-ionic): split_metal_salts() deletes a *coordinate*
+    (order 8) bond between a group I/II metal and an acceptor like an ionic one (charge +1 / -1, no recount); both ends are outside
+    the judged domain"""
+    if n not in src._atoms or not any(op[0] == 'call' and op[1] == 'split_metal_salts' for op in ops):
+        return False
+    for k, b in src._bonds[n].items():
+        if b.order == 8 and k not in res._bonds.get(n, ()) and \
+                (src._atoms[n].atomic_number in S_METALS or src._atoms[k].atomic_number in S_METALS):
+            return True
+    return False
+
+
+def judge_history(src, results, calc_of, accepts, ops, known_gaps=True):
     """The clause: for every atom of every result with localised bonds, stored count == the rules' count for its present
     (element, charge, radical, bonds); the old count may stay only if the atom's state did not change at all; an atom that
     lost explicit hydrogens may carry any count the rules accept (implicify picks the first rule with h >= removed).
@@ -667,6 +692,8 @@ def judge_history(src, results, calc_of, accepts, ops):
             mark = a._implicit_hydrogens
             want = calc_of(ri, n, cx)
             if mark == want:
+                continue
+            if known_gaps and split_coordinate_gap(src, res, n, ops):
                 continue
             if n in src._atoms:
                 old = atom_ctx(src, n)
@@ -922,7 +949,7 @@ def recorded_standardize(mol, kw, reg):
     return [(info, pre, maps, records[i + 1][1] if i + 1 < len(records) else final) for i, (info, pre, maps) in enumerate(records)]
 
 
-def stdrule_request(info, pre, maps):
+def rule_part(info, maps):
     _t, _i, af, bf, ay = info
     xs = [len(af)]
     for n, ch, ir in af:
@@ -936,7 +963,18 @@ def stdrule_request(info, pre, maps):
         xs.append(len(mp))
         for k, v in mp:
             xs += [k, v]
-    return 'stdrule ' + ' '.join(map(str, xs + pre))
+    return xs
+
+
+def stdrule_request(info, pre, maps):
+    return 'stdrule ' + ' '.join(map(str, rule_part(info, maps) + pre))
+
+
+def stdchain_request(recs):
+    xs = [len(recs)]
+    for info, _pre, maps, _post in recs:
+        xs += rule_part(info, maps)
+    return 'stdchain ' + ' '.join(map(str, xs + recs[0][1]))
 
 
 def stdrule_sources(ctx):
@@ -966,6 +1004,7 @@ STD_HANDMADE = ['CB(C)[N](C)(C)C', 'CB(C)[S](C)C', 'N#[C-][Fe]', 'N#C[Cu]', 'C[P
 def stdrule_stream(ctx):
     reg = rule_registry()
     reqs, meta = [], []
+    chains = []
     variants = [{}, {}, {'fix_tautomers': False}, {'logging': True}]
     for name, src in stdrule_sources(ctx):
         kw = ctx.rng.choice(variants)
@@ -983,6 +1022,18 @@ def stdrule_stream(ctx):
         for info, pre, maps, post in recs:
             reqs.append(stdrule_request(info, pre, maps))
             meta.append((name, src, kw, info, pre, maps, post))
+        if len(recs) > 1:
+            chains.append((name, src, kw, recs))
+    # the rule part of a whole standardize() call (first matching rule ... return) replayed as one chain by `stdRules`
+    cresp = core.run_driver('C04', [stdchain_request(recs) for *_x, recs in chains]) if chains else []
+    for (name, src, kw, recs), line in zip(chains, cresp):
+        ctx.count(('stdchain', tuple(recs[0][1]), json.dumps([r[2] for r in recs])))
+        ctx.dist('stdrule/chains-of-several-rules')
+        if not (line.startswith('ok ') and structure_key([int(x) for x in line[3:].split()]) == structure_key(recs[-1][3])):
+            ctx.cov['disagreements_checked'] += 1
+            ctx.c04_bad_mols.append({'kind': 'history', 'name': name, 'wire': wire.mol_to_ints(src), 'ops': [['call', 'standardize', kw]]})
+            if sum(1 for x in ctx.broken if x.name.startswith('stdchain/')) < 4:
+                ctx.broke('correspondence', 'stdchain/standardize', f'{name} {src}: rules {[r[0][:2] for r in recs]}: model answered {line[:120]}')
     resp = core.run_driver('C04', reqs) if reqs else []
     for (name, src, kw, info, pre, maps, post), line in zip(meta, resp):
         changed = structure_key(pre) != structure_key(post)
@@ -1017,7 +1068,7 @@ def history_cases(ctx):
     for smi in HOP_HANDMADE + ['OCCN(C)C', 'CC(C)CO', 'CCNCC', 'C1CCC1CS', 'CC(=O)CC', 'CC(=O)NC', 'C=CC#N', 'OCCN(C)~[Cu]', 'CS(CCO)~[Pd]',
                                'CN(C)CCN(C)~[Cu]', 'CC(=O)OC~[Zn]', 'Cn1cc[n+](C)c1', 'C[n+]1ccccc1', 'CC1=CNC=[NH+]1', 'c1cc[nH+]cc1', 'C[N+]1=CC=CN1C',
                                'CC(=O)[O-].[Na+]', 'C[N+](C)(C)CC([O-])=O', 'O=C1C=CNC=C1', 'Oc1ccncc1', 'NC(=N)N', 'CS(C)=O', 'C[S+](C)[O-]', 'CN=[N+]=[N-]',
-                               'C[N+]([O-])=O', 'CN(=O)=O', 'OP(O)(O)=O', 'Cl[Pt](Cl)(N)N', 'N~[Pt](~N)(Cl)Cl', 'C1=CC=CC=C1', 'c1ccc2[nH]ccc2c1']:
+                               'C[N+]([O-])=O', 'CN(=O)=O', 'OP(O)(O)=O', 'Cl[Pt](Cl)(N)N', 'N~[Pt](~N)(Cl)Cl', 'C1=CC=CC=C1', 'c1ccc2[nH]ccc2c1'] + SALTS:
         m = molgen.parse(smi)
         if m is not None:
             pool.append((smi, m))
@@ -1085,6 +1136,27 @@ def history_cases(ctx):
             except Exception:
                 pass
     ctx.dist('history/rule-instances', len(insts))
+    # generators of new molecules (Kekule forms, tautomers, charged forms) and the salt operations on salts
+    for name, m in pool:
+        if len(m) >= 2 and rng.random() < (0.25 if q else 0.3):
+            meth, kw = rng.choice(ENUMERATORS)
+            cases.append((name, m, [['enumerate', meth, kw]]))
+        if name in SALTS or name.split('/')[0] in SALTS:
+            for meth in ('remove_acids', 'split_metal_salts', 'remove_metals', 'neutralize'):
+                cases.append((name, m, [['call', meth, {}]]))
+            cases.append((name, m, [['call', 'split_metal_salts', {}], ['call', rng.choice(['remove_metals', 'neutralize', 'canonicalize']), {}]]))
+    # charge-separated / radical resonance drawings of push-pull systems and polyenes (C14's generator): fix_resonance moves
+    # charges, radicals and bond orders along a path and recounts the path atoms
+    try:
+        from . import c14 as _c14
+        dip = _c14.resonance_instances()
+    except Exception as e:
+        dip = []
+        ctx.notes.append(f'resonance drawings not generated: {type(e).__name__}: {e}'[:200])
+    for name, m, *_ in dip[:: (2 if q else 1)]:
+        cases.append((name, m, [['call', 'fix_resonance', {}]]))
+        cases.append((name, m, [['call', rng.choice(['standardize', 'canonicalize']), {}]]))
+    ctx.dist('history/resonance-drawings', len(dip))
     # charged heteroaromatics (ring nitrogen quaternised / protonated, charge possibly not on the canonical atom): every option
     # combination of the standardisation entry points, because the rarely used paths restore / move bond orders and charges
     charged = [(n, m) for n, m in pool if n.endswith('/cation') or (any(a._charge for a in m._atoms.values()) and len(pool) and n in _HANDMADE_NAMES)]
@@ -1208,7 +1280,7 @@ def history_stream(ctx):
     ctx.notes.append(f't+{ctx.elapsed():.0f}s operation histories judged: {len(done)} of {len(cases)} ran')
 
 
-def history_oracle(src, ops):
+def history_oracle(src, ops, known_gaps=True):
     """the same clause judged with the raw element tables on the real code (no Lean model)"""
     status, results = run_history(src, ops)
     if results is None:
@@ -1228,11 +1300,15 @@ def history_oracle(src, ops):
             return [(f'C04/history/{kind}/totals-are-not-the-sums-over-atoms',
                      f'{src} (formula, charge, radical flag and mass read before) after {json.dumps(ops)[:300]} -> {r.copy()}: {what} answers {got}, '
                      f'the atoms give {want}')]
-    bad = judge_history(src, results, calc_of, accepts, ops)
+    bad = judge_history(src, results, calc_of, accepts, ops, known_gaps)
     if not bad:
         return []
     ri, n, sym, q, mark, want, bonds = bad[0]
     res = results[ri]
+    if not known_gaps and split_coordinate_gap(src, res, n, ops):
+        return [('C04/split_metal_salts/coordinate-bond-split-as-ionic',
+                 f'{src} after {json.dumps(ops)[:200]} -> {res}: atom {n} ({sym}, q={q}) carries implicit_hydrogens={mark} with bonds {bonds}, '
+                 f'the element tables give {want}; check_valence()={res.check_valence()}')]
     return [(f'C04/history/{kind}/stored-count-is-not-the-rules-count',
              f'{src} after {json.dumps(ops)[:300]} -> {res}: atom {n} ({sym}, q={q}) carries implicit_hydrogens={mark} with bonds {bonds}, '
              f'the element tables give {want}; check_valence()={res.check_valence()}; {len(bad)} such atoms')]
@@ -1692,6 +1768,14 @@ def hop_oracle(mol, op):
     status, res = apply_real(op, mol)
     if res is None:
         return out
+    if op in ('implicify_hydrogens', 'explicify_hydrogens', 'kekule', 'thiele'):
+        heavy = lambda x: Counter((a.atomic_symbol, a._charge) for a in x._atoms.values() if a.atomic_number != 1)
+        if heavy(mol) != heavy(res):
+            out.append((f'C04/{op}/heavy-atoms-not-conserved', f'{op} on {mol.copy()} (atom numbers {sorted(mol._atoms)}): heavy atoms '
+                        f'{dict(heavy(mol))} before, {dict(heavy(res))} after'))
+        lone = [(n, k) for n, ms in res._bonds.items() for k in ms if n not in res._bonds.get(k, ())]
+        if lone:
+            out.append((f'C04/{op}/one-sided-bond', f'{op} on {mol.copy()} (atom numbers {sorted(mol._atoms)}): bonds {lone[:4]} are known to one atom only'))
     if op in ('implicify_hydrogens', 'explicify_hydrogens', 'kekule', 'thiele') and before is not None:
         aft = total_h(res)
         if aft != before:
@@ -1899,6 +1983,8 @@ def probe(inp):
     elif kind == 'history':
         m = molgen.parse(inp['smiles']) if 'smiles' in inp else wire.ints_to_mol(inp['wire'], calc=True)[0]
         res = history_oracle(m, inp['ops'])
+    elif kind == 'history-with-recorded-gaps':   # standing probe of a known finding: the filtered class itself
+        res = history_oracle(molgen.parse(inp['smiles']), inp['ops'], known_gaps=False)
     elif kind == 'reader':
         res = reader_oracle(inp['smiles'])
     elif kind == 'smiles':
